@@ -4,7 +4,7 @@ from __future__ import annotations
 import ast
 
 from ..cfg import NORMAL, ALL, walk_local
-from ..facts import (cfg_of, call_name, calls_in, bind_args, targets_of,
+from ..facts import (built_sequence, cfg_of, call_name, calls_in, bind_args, targets_of,
                      local_assigns, resolve_local, guard_atoms, is_attr,
                      is_name, kwarg, strip_await, enclosing, const_value)
 from ..loader import txt, AnchorError
@@ -272,6 +272,16 @@ def r175(ctx) -> None:
                         for t in gcfg.nodes if t.kind == 'test'
                         for a, pol in guard_atoms(t.stmt.test)
                         if a == f'{nm}.readonly')
+                    # next(<x for x in self._set if not x.readonly>, None)
+                    if not ok and isinstance(rv, ast.Call) and \
+                            call_name(rv) == 'next' and len(rv.args) == 2 \
+                            and const_value(rv.args[1]) == (True, None):
+                        bs_ = built_sequence(g, rv.args[0])
+                        ok = bool(bs_) and all(
+                            txt(b['elt']) == txt(b['target']) and any(
+                                (f"{txt(b['target'])}.readonly", False)
+                                in guard_atoms(c) for c in b['ifs'])
+                            for b in bs_)
                     if not ok:
                         bad.append(r.lineno)
                 R.check(not bad, g, g.node, key,
